@@ -223,3 +223,33 @@ func H_C10_hdr(kind, d int) {
 	}
 	vReach("end")
 }
+
+// H_C10_cexp_tok: the Contact expires / q value is an arbitrary token (letters
+// and digits): a number is reported only for a digit string, and then it is
+// that string's decimal value.
+func H_C10_cexp_tok(which, d int) {
+	val := vBytes(d)
+	for i := range val {
+		vAssume(isAlnum(val[i]))
+	}
+	name := "expires"
+	if which == 1 {
+		name = "q"
+	}
+	buf := append([]byte("<a>;"+name+"="), val...)
+	buf = append(buf, '\r', '\n', 'X')
+	var pf PFromBody
+	_, e := ParseOneContact(buf, 0, &pf)
+	vAssert("accepted", e == 0)
+	alld := vAllDigits(val)
+	if which == 0 {
+		ref, sat := refDec(val, refU32Max)
+		vAssert("expires-only-for-digit-strings", vOr(!pf.HasExpires, alld))
+		vAssert("expires-reported-for-digit-strings", vOr(!alld, pf.HasExpires))
+		vAssert("expires-exact", vOr(!alld, vOr(vAnd(sat, pf.Expires == refU32Max), vAnd(!sat, uint64(pf.Expires) == ref))))
+		vAssert("non-number-flagged", vOr(alld, vAnd(pf.Expires == 0, pf.ParamErr != 0)))
+	} else {
+		vAssert("q-only-for-digit-strings", vOr(alld, pf.Q == 0))
+	}
+	vReach("end")
+}
